@@ -224,6 +224,12 @@ Definition Unowned (w : world) (o : op) : bool :=
   | _ => false
   end.
 
+(* ... stated as an invariant: every file listed in a model names that model.  It holds in the empty world and is
+   preserved by every operation (Tree/FilesProofsOwned.v), so Unowned never holds in a reachable world. *)
+Definition FilesOwned (w : world) : Prop :=
+  forall m x f, model_b w m = Some x -> In f (m_files x) ->
+  exists fl, nth_opt (w_files w) (N.to_nat f) = Some fl /\ f_model fl = m.
+
 (* the root element of model m has a type that is a named type (never the case for the real tables: AUTOSAR has no
    SHORT-NAME); remove_file of the last file could then fail to delete a SHORT-NAME child of the root *)
 Definition root_named (w : world) (o : op) : bool :=
